@@ -799,7 +799,7 @@ func (l Letter) BuildLogs() plog.Logs {
 
 // ---- metrics ---------------------------------------------------------------------
 
-const NumMetric = 51
+const NumMetric = 56
 
 func exemplar(e pmetric.Exemplar, kind int) {
 	switch kind {
@@ -1037,6 +1037,43 @@ func fillMetric(i int, m pmetric.Metric) {
 			dp := g.DataPoints().AppendEmpty()
 			dp.SetIntValue(int64(k))
 			fillAttrs(7, dp.Attributes())
+		}
+	case 51, 52, 55: // gauge: four points whose exemplars carry the same value (51 int, 52 double; 55: the run is broken once)
+		g := m.SetEmptyGauge()
+		for k := 0; k < 4; k++ {
+			dp := g.DataPoints().AppendEmpty()
+			dp.SetIntValue(int64(10 + k))
+			dp.SetTimestamp(pcommon.Timestamp(100 + k))
+			e := dp.Exemplars().AppendEmpty()
+			e.SetTimestamp(pcommon.Timestamp(200 + k))
+			switch {
+			case i == 52:
+				e.SetDoubleValue(1.5)
+			case i == 55 && k == 2:
+				e.SetIntValue(8)
+			default:
+				e.SetIntValue(7)
+			}
+		}
+	case 53: // histogram: four points, equal int exemplars
+		h := m.SetEmptyHistogram()
+		for k := 0; k < 4; k++ {
+			dp := h.DataPoints().AppendEmpty()
+			dp.SetCount(uint64(k + 1))
+			dp.SetTimestamp(pcommon.Timestamp(100 + k))
+			e := dp.Exemplars().AppendEmpty()
+			e.SetTimestamp(pcommon.Timestamp(200 + k))
+			e.SetIntValue(7)
+		}
+	case 54: // exponential histogram: four points, equal double exemplars
+		h := m.SetEmptyExponentialHistogram()
+		for k := 0; k < 4; k++ {
+			dp := h.DataPoints().AppendEmpty()
+			dp.SetCount(uint64(k + 1))
+			dp.SetTimestamp(pcommon.Timestamp(100 + k))
+			e := dp.Exemplars().AppendEmpty()
+			e.SetTimestamp(pcommon.Timestamp(200 + k))
+			e.SetDoubleValue(1.5)
 		}
 	case 50: // summary with quantiles in descending order, two points
 		sm := m.SetEmptySummary()
